@@ -12,7 +12,7 @@ CLAIMED = {
    note="Release-profile arithmetic. Step-fuel, depth and allocator budgets end runaway runs; such endings are C03 verdicts, not C01 ones. Worker aborts (SIGSEGV/SIGABRT) are attributed to the in-flight run and confirmed by solo replay.",
    tech="deterministic simulation: seeded workload + line-fault injection, per-byte crash oracle"),
  "C02": dict(cat="fault_enumeration", ref="DESIGN.md §3 C02",
-   text="Base files are produced by the engine's own writers (18 extensions, PSF/raw fonts incl. tables of up to 2^17 glyphs, TDF bundles, 5 palette formats plus the writer-less ASE reader, clipboard payloads, UTF-8 text files with a byte order mark) from seeded documents; a simulated disk applies 16 stored-byte fault kinds (short, torn sector, lost sector, stale tail, bit rot, overwrite, misdirected and duplicated sector, misnamed file, SAUCE-tail-only, COMNT cut, header extreme, decimal number extreme, SAUCE numeric field extreme, SAUCE text bytes, TheDraw font name bytes) singly and in combinations of 2-3, plus real-file-system legs (missing, directory, empty, no extension). Every entry point named by the property is called on the damaged bytes; oracle: returns Ok/Err/None, no panic, worker alive; the loader's drain loop runs on virtual sleeps with decode threads gated. Two sweeps are complete by run index: every prefix (truncation) of 2 (quick) / 6 (thorough) base files for each of the 22 readers, and the whole single-fault space (every truncation, every position x {bit 0, bit 7, 0x00, 0xFF, 0x1A}, every aligned 16-byte run zeroed) of 2 / 64 base files of up to 5 200 bytes. IcyDraw files are additionally damaged inside their framing (zTXt records rewritten and re-framed with correct base64/zlib/CRC). Multi-fault combinations are sampled.",
+   text="Base files are produced by the engine's own writers (18 extensions, PSF/raw fonts incl. tables of up to 2^17 glyphs, TDF bundles, 5 palette formats plus the writer-less ASE reader, clipboard payloads, UTF-8 text files with a byte order mark, captured terminal sessions saved under twelve extensions) from seeded documents; a simulated disk applies 17 stored-byte fault kinds (short, torn sector, lost sector, stale tail, bit rot, overwrite, misdirected and duplicated sector, misnamed file incl. odd and non-UTF-8 names, SAUCE-tail-only, COMNT cut, header extreme, decimal number extreme, SAUCE numeric field extreme, SAUCE text bytes, TheDraw font name bytes, well-formed multi-byte character inserted) singly and in combinations of 2-3, plus real-file-system legs (missing, directory, empty, no extension). Every entry point named by the property is called on the damaged bytes; oracle: returns Ok/Err/None, no panic, worker alive; the loader's drain loop runs on virtual sleeps with decode threads gated. Two sweeps are complete by run index: every prefix (truncation) of 2 (quick) / 6 (thorough) base files for each of the 23 reader kinds, and the whole single-fault space (every truncation, every position x {bit 0, bit 7, 0x00, 0xFF, 0x1A}, every aligned 16-byte run zeroed) of 2 / 64 base files of up to 5 200 bytes. IcyDraw files are additionally damaged inside their framing (zTXt records rewritten and re-framed with correct base64/zlib/CRC). Multi-fault combinations are sampled.",
    note="Nothing is asserted about what a damaged file loads as. Budget overruns are C03 verdicts. Complete only per enumerated base file; across base files and for multi-fault combinations it is sampling.",
    tech="deterministic simulation: storage fault injection on writer-produced files, crash oracle"),
  "C03": dict(cat="exploration", ref="DESIGN.md §3 C03",
